@@ -826,6 +826,14 @@ func (d *refreshDebouncer) debounce() {
 func (d *refreshDebouncer) refreshNow() <-chan error {
 	d.mu.Lock()
 	defer d.mu.Unlock()
+	if d.stopped {
+		// The flusher has returned or is about to: nobody would ever serve or stop a broadcaster
+		// created now, and its listeners would wait forever. Hand out a closed channel, which is
+		// what the listeners that were pending when stop() was called get as well.
+		ch := make(chan error)
+		close(ch)
+		return ch
+	}
 	if d.broadcaster == nil {
 		d.broadcaster = newErrorBroadcaster()
 		select {
